@@ -1,4 +1,5 @@
 import BitbybitModel.Lemmas.BuilderChain
+import BitbybitModel.Lemmas.BuilderMask
 /-!
 # C14 — the builder exists exactly when sound; `build()` is unreachable until all fields are set
 -/
@@ -66,5 +67,45 @@ theorem chain_monotone : ∀ (steps : List BuilderStep) (m final : Nat), ChainFr
     obtain ⟨h1, ⟨fm, _, _, h3⟩, _, h4⟩ := h
     apply ih s.nextMask final h4 k
     rw [h3, Nat.testBit_or, h1, hk]; rfl
+
+/-- the mask the macro computes for a field has bit `k` exactly when some (element, range) piece of the field
+    covers position `k`; the macro's `u128` arithmetic never overflows for an accepted field -/
+theorem mask_bits {B : Base} {fd : FieldDef} (hB : B.WF) (hok : FieldOk B fd) (m : Nat) (h : fieldMask fd = .mask m) (k : Nat) :
+    m.testBit k = (fieldPieces fd).any (·.covers 0 k) := by
+  rw [fieldMask_spec hB hok] at h
+  split at h
+  · cases h; exact testBit_maskBits 0 _ k
+  · cases h
+
+/-- the self-overlap test answers "self overlap" exactly when two pieces of the field share a position -/
+theorem self_overlap_iff {B : Base} {fd : FieldDef} (hB : B.WF) (hok : FieldOk B fd) :
+    fieldMask fd = .selfOverlap ↔ pairwiseDisjoint (fieldPieces fd) = false := by
+  rw [fieldMask_spec hB hok]
+  cases hd : pairwiseDisjoint (fieldPieces fd) <;> simp
+
+/-- **C14 (decision).** For every accepted declaration: `builder()` is offered iff no position is writable through
+    more than one field, array element or range (the pieces of all writable fields are pairwise disjoint) and either a
+    default is declared or the writable positions are all `N` bits of the base. -/
+theorem builder_offered_iff {B : Base} (hB : B.WF) (hasDefault : Bool) (fds : List FieldDef) (hok : ∀ fd ∈ fds, FieldOk B fd) :
+    (∃ steps final, makeBuilder B hasDefault fds = .chain steps final) ↔
+      pairwiseDisjoint (writablePieces fds) = true ∧
+      (hasDefault = true ∨ ∀ p, p < B.exposed → (writablePieces fds).any (·.covers 0 p) = true) :=
+  Bb.builder_offered_iff hB hasDefault fds hok
+
+/-- in particular, when a builder is offered every position is covered by at most one writable piece -/
+theorem no_double_write {B : Base} (hB : B.WF) (hasDefault : Bool) (fds : List FieldDef) (hok : ∀ fd ∈ fds, FieldOk B fd)
+    (h : ∃ steps final, makeBuilder B hasDefault fds = .chain steps final) (p : Nat) : cov (writablePieces fds) p ≤ 1 :=
+  cov_le_one _ p ((builder_offered_iff hB hasDefault fds hok).mp h).1
+
+/-! non-vacuity: `#[bitfield(u8)] { lo: u4 @0..=3 rw, hi: u4 @4..=7 rw }` gets a builder without a default;
+    with `hi` moved to 3..=6 it does not -/
+def lo4 : FieldDef := {
+  name := "lo", ranges := [⟨0, 4⟩], unsignedFieldType := none, array := none, fieldTypeSize := 4,
+  getter := true, setter := true, fromDataType := some 4, useRegularInt := false, primitiveType := .u8, custom := none, docs := 0 }
+def hi4 (lo : Nat) : FieldDef := {
+  name := "hi", ranges := [⟨lo, 4⟩], unsignedFieldType := none, array := none, fieldTypeSize := 4,
+  getter := true, setter := true, fromDataType := some 4, useRegularInt := false, primitiveType := .u8, custom := none, docs := 0 }
+example : makeBuilder (Base.new 8) false [lo4, hi4 4] ≠ .none := by decide
+example : makeBuilder (Base.new 8) false [lo4, hi4 3] = .none := by decide
 
 end Bb.C14
